@@ -29,11 +29,10 @@ def collect_alts(ex, alts, label):
         if a.guard is False:
             continue
         if a.kind == 'raise':
-            g = z3.BoolVal(True) if a.guard is True else bool_term(a.guard)
-            ex.ghost.setdefault('raises', []).append((label, a.exc, g))
-            if a.guard is True:
+            if a.guard is True and not ex.guards:
+                ex.ghost.setdefault('raises', []).append((label, a.exc, z3.BoolVal(True)))
                 raise PyRaise(make_exc(a.exc, label))
-            ex.assume(z3.Not(g))
+            ex.collect_raise(a.exc, a.guard, label)
         else:
             rets.append((z3.BoolVal(True) if a.guard is True else bool_term(a.guard), a.value))
     if len(rets) == 1:
